@@ -481,6 +481,15 @@ def lastIsReject {Msg : Type} (rs : List (FrameRes Msg)) : Bool :=
   | some (.err .unalloc) => true
   | _ => false
 
+/-- Every frame reported as decoded was within the limits: walk the stream header by header
+along the reported successes. -/
+def withinLimit {Msg : Type} (max : Nat) : List (FrameRes Msg) → Bytes → Bool
+  | .ok _ :: rs, s =>
+    let len := beVal (s.take 8)
+    decide (8 ≤ s.length) && decide (len ≤ max) && decide (len ≤ isizeMax) && decide (8 + len ≤ s.length) &&
+      withinLimit max rs (s.drop (8 + len))
+  | _, _ => true
+
 /-- The property clauses of C19 for one stream, as a decidable predicate on observations. The
 result is the list of violated clause names (empty = ok). -/
 def framesOk {Msg : Type} [DecidableEq Msg] (max : Nat) (stream : Bytes) (o : FrameObs Msg) :
@@ -489,6 +498,7 @@ def framesOk {Msg : Type} [DecidableEq Msg] (max : Nat) (stream : Bytes) (o : Fr
   (if o.whole == o.split then [] else ["frame-fragmentation"]) ++
   (if stopsAtFirstError o.split.1 && stopsAtFirstError o.whole.1 then [] else ["frame-stop-at-error"]) ++
   (if o.maxReq ≤ chunkSize then [] else ["frame-bounded-read"]) ++
+  (if withinLimit max o.split.1 stream && withinLimit max o.whole.1 stream then [] else ["frame-limit"]) ++
   (if o.split.2 ≤ stream.length && o.whole.2 ≤ stream.length then [] else ["frame-consumed"]) ++
   (if lastIsReject o.split.1 then
      (if rejectPoint max (stream.length + 1) stream == some o.split.2 then [] else ["frame-reject-before-payload"])
